@@ -103,7 +103,8 @@ static inline bool gen_cfg(vf::Src &s, Cfg &c, bool all_pixfmts, double min_samp
 	// horizontal window: starts 1-6 us before the earliest signal, ends 1-3 us after the latest one (or at the end of the line)
 	double smin = 1e9, emax = 0;
 	for (const Blk *b = S.b; b->service; ++b) { double a, e; window_us(b->service, &a, &e); smin = std::min(smin, a); emax = std::max(emax, e); }
-	double t0 = smin - 1.0 - 5.0 * (s.u8() / 255.0);
+	// (the property allows any horizontal offset that keeps the signal inside the line: one case in eight starts anywhere between 0H and the signal)
+	double t0; { unsigned u = s.u8(); t0 = u >= 224 ? (smin - 1.0) * (255 - u) / 31.0 : smin - 1.0 - 5.0 * (u / 255.0); }
 	double t1 = emax + 1.0 + (s.chance(1, 2) ? 0.0 : 2.0 * (s.u8() / 255.0));
 	if (s.chance(1, 4)) { t0 = 9.7 < smin - 1.0 ? 9.7 : smin - 1.0; }	// the offset the existing test uses
 	if (t1 > 63.5) t1 = 63.5;
